@@ -41,8 +41,13 @@ func main() {
 		verifrt.CovHit0[i], verifrt.CovHit1[i], verifrt.CovProp[i] = 0, 0, 0
 	}
 
+	// the sweep runs at its quick depth under the instrumentation (the thorough value alphabets raise the same
+	// carries: measured 223/254 and 118/190 against 223/254 and 116/190, at twenty times the cost)
+	os.Setenv("VERIF_TIER", "quick")
+
 	scratch := ev.New(prop, "scratch", verifrt.Variant)
 	sweep(scratch)
+	os.Setenv("VERIF_TIER", "thorough")
 
 	if scratch.NViolations() > 0 {
 		r.Note("the sweep itself reported violations; see the main part")
